@@ -899,7 +899,8 @@ def check_factory(opm, System, op, frames, with_periodic=True):
 def check_path(opm, System, op, frames):
     """orders computed by engine.calculate_order (both routes, all returned values) stored in a Path:
     ordermin/ordermax use the first value; Path.reverse leaves the original path alone, keeps every value of a
-    position-type parameter (frames mirrored) and recomputes velocity-type ones as calculate(frame)."""
+    position-type parameter (frames mirrored) and negates the first value of velocity-type ones
+    (the known unchanged-sign behaviour is reported under its own signature SIG_PR, anything else under C20:path-order)."""
     from infretis.classes.path import Path
     name = op[0]
     o = build(opm, op)
@@ -949,11 +950,36 @@ def check_path(opm, System, op, frames):
         if back != alls[::-1]:
             return ("C20:path-order", f"position-type {name}: orders {alls} became {back} after Path.reverse (mirror image expected)")
     else:
-        for pp, b in zip(rv.phasepoints, back):
-            t, v = call_obj(build(opm, op), pp)
-            if t != "ok" or not same_vals(v, b, ["lin"] * len(b), [False] * len(b)):
-                return ("C20:path-order", f"velocity-type {name}: reversed frame stores order {b} but calculate(frame) gives {t} {v}")
+        want = [[-a[0]] + a[1:] for a in alls[::-1]]
+        n1 = ["lin"] * nvals
+        f1 = [False] * nvals
+        if all(same_vals(b, w, n1, f1) for b, w in zip(back, want)) and len(back) == len(want):
+            return None
+        if all(same_vals(b, a, n1, f1) for b, a in zip(back, alls[::-1])) and len(back) == len(alls):
+            return (SIG_PR, PR_WHAT + f" [instance: {name} {op[1:]}, mirrored forward orders {[a[0] for a in alls[::-1]]}, "
+                                      f"after Path.reverse {[b[0] for b in back]}, vel_rev {[pp.vel_rev for pp in rv.phasepoints]}]")
+        return ("C20:path-order", f"velocity-type {name}: mirrored forward orders {alls[::-1]} became {back} after Path.reverse "
+                                  f"(first value negated expected)")
     return None
+
+
+SIG_PR = "C20:path-reverse:velocity-order-sign-not-flipped"
+PR_WHAT = ("Path.reverse(order_function) toggles vel_rev and recomputes velocity-dependent orders with "
+           "order_function.calculate(frame), which reads the velocities stored with the frame and ignores the flag: orders of "
+           "Velocity / Distancevel do not change sign under path reversal (frames made by calculate_order on either route)")
+
+
+def path_reverse_witnesses():
+    """FIXED witness set, evaluated on every run: Velocity and Distancevel, 3 frames, dyadic numbers.  check_path makes
+    frame j through the file route for even j and through the explicit-array route for odd j, so both routes occur."""
+    fr = []
+    for k in range(3):
+        fr.append({"pos": [["0", "0", "0"], [str(1 + k), "0", "0"], ["0", "2", "1"]],
+                   "vel": [[str(1 + k), "0", "-1/2"], ["2", "0", "0"], ["0", "1", "0"]],
+                   "box": ["16", "16", "16"]})
+    fr9 = [dict(f, box=f["box"] + ["0"] * 6) for f in fr]
+    return [(["velocity", 0, 0], fr), (["velocity", 0, 2], fr[::-1]), (["velocity", 1, 0], fr9),
+            (["distancevel", 0, 1, 0], fr), (["distancevel", 0, 1, 1], fr9), (["distancevel", 1, 2, 1], fr[1:] + fr[:1])]
 
 
 def boundary_cases():
@@ -1237,6 +1263,9 @@ def run(ctx):
         else:
             ctx.distinct((kind, str(case), str(extra)))
 
+    for op, frames in path_reverse_witnesses():
+        ctx.count(len(frames), branch="path-reverse-witness:" + op[0])
+        guarded(check_path, "path", {"op": op, "frames": frames}, {}, opm, System, op, frames)
     for k, (op, frames) in enumerate(hist):
         fr3 = [dict(f, mode="new") for f in frames[:3]]
         n = len(frames[0]["pos"])
@@ -1260,42 +1289,8 @@ def run(ctx):
             if q and nb % 3:
                 continue
             ev("image-shift", c, {"ks": [[rng.randint(-3, 3) for _ in range(3)] for _ in c["pos"]]})
-    # observation (not a failure; reported for a decision): Path.reverse(order_function) recomputes the
-    # orders of velocity-dependent parameters with order_function.calculate(phasepoint), which reads
-    # system.vel and ignores the vel_rev flag that reverse() has just toggled.
-    try:
-        from infretis.classes.path import Path
-        obs = {}
-        for label, mk_o in (("Velocity(0,'x')", lambda: opm.Velocity(0, "x")),
-                            ("Distancevel((0,1),periodic=False)", lambda: opm.Distancevel((0, 1), periodic=False))):
-            for route in ("file", "explicit"):
-                o = mk_o()
-                tab = {}
-                eng = make_engine(o, tab)
-                pth = Path(maxlen=10)
-                for k in range(3):
-                    xyz = np.array([[0.0, 0, 0], [1.0 + k, 0, 0]])
-                    vel = np.array([[1.0 + k, 0, 0], [2.0, 0, 0]])
-                    tab[f"f{k}"] = (xyz, vel, np.array([16.0, 16.0, 16.0]))
-                    sy = System()
-                    sy.config = (f"f{k}", k)
-                    sy.order = (eng.calculate_order(sy) if route == "file"
-                                else eng.calculate_order(sy, xyz=xyz, vel=vel, box=tab[f"f{k}"][2]))
-                    pth.append(sy)
-                rv = pth.reverse(o)
-                fw = [float(pp.order[0]) for pp in pth.phasepoints][::-1]
-                bw = [float(pp.order[0]) for pp in rv.phasepoints]
-                obs[f"{label} via {route}"] = {"forward_orders_mirrored": fw, "orders_after_Path.reverse": bw,
-                                               "vel_rev_after": [pp.vel_rev for pp in rv.phasepoints],
-                                               "sign_changed": all(abs(a + b) < 1e-12 for a, b in zip(fw, bw))}
-        ctx.extra["path_reverse_observation"] = {
-            "cases": obs,
-            "note": "Path.reverse toggles vel_rev and recomputes velocity-dependent orders with order_function.calculate(frame), "
-                    "which reads the stored system.vel (the physical velocity at the time calculate_order ran) and ignores vel_rev: "
-                    "the recomputed orders keep their sign.  The classes themselves change sign under v -> -v "
-                    "(theorems velocity_reversal_sign, calculateOrder_vel_rev).  Reported, not counted as a failure."}
-    except Exception as e:  # noqa: BLE001
-        ctx.extra["path_reverse_observation"] = "probe failed: " + err_kind(e) + ": " + str(e)
+    ctx.extra["path_reverse"] = ("velocity-type orders after Path.reverse are judged by check_path on a fixed witness set (Velocity, "
+                                 "Distancevel; file and explicit-array frames) and on the random sequences: signature " + SIG_PR)
     new_assumptions = [
         "system.pos/vel are float (N,3) arrays, system.box is None or a 1-D float array (the default 3x3 zero box of a bare System() is not modelled)",
         "sqrt/arctan2/rad2deg/sin/cos and the final quotients are applied outside the Lean model (same formulas in floating point, compared at rel 1e-9; angles through sin/cos)",
